@@ -25,14 +25,24 @@ fn tcfg(cols: Felt, height: Felt, nf: Felt) -> TableConfig {
 /// that "consistent re-declarations" with field-wrapped values can be built with it too).
 #[allow(clippy::too_many_arguments)]
 pub fn make(lt: Felt, lc: Felt, steps: &[u64], last: Felt, nq: Felt, pow: u8, nf: Felt, cols: (u64, u64), lis_override: Option<Felt>) -> StarkConfig {
+    let fs: Vec<Felt> = steps.iter().map(|&s| fu(s)).collect();
+    make_felt(lt, lc, &fs, last, nq, pow, nf, cols, lis_override)
+}
+
+/// As `make`, with the FRI steps given as field elements: the column count of a layer is
+/// 2^(step mod 2^64 mod 64) (what a careless reader of the low limb would compute), every
+/// height is derived from the full elements.
+#[allow(clippy::too_many_arguments)]
+pub fn make_felt(lt: Felt, lc: Felt, steps: &[Felt], last: Felt, nq: Felt, pow: u8, nf: Felt, cols: (u64, u64), lis_override: Option<Felt>) -> StarkConfig {
     let eval = lt + lc;
-    let sum: u64 = steps.iter().sum();
-    let lis = lis_override.unwrap_or(fu(sum) + last + lc);
+    let sum: Felt = steps.iter().fold(Felt::ZERO, |a, b| a + *b);
+    let lis = lis_override.unwrap_or(sum + last + lc);
     let mut inner = Vec::new();
     let mut acc = Felt::ZERO;
-    for &s in &steps[1..] {
-        acc += fu(s);
-        inner.push(tcfg(fu(1u64 << s), lis - acc, nf));
+    for s in &steps[1..] {
+        acc += *s;
+        let low = s.to_le_digits()[0] % 64;
+        inner.push(tcfg(fu(1u64 << low), lis - acc, nf));
     }
     StarkConfig {
         traces: swiftness_air::trace::config::Config { original: tcfg(fu(cols.0), eval, nf), interaction: tcfg(fu(cols.1), eval, nf) },
@@ -41,7 +51,7 @@ pub fn make(lt: Felt, lc: Felt, steps: &[u64], last: Felt, nq: Felt, pow: u8, nf
             log_input_size: lis,
             n_layers: fu(steps.len() as u64),
             inner_layers: inner,
-            fri_step_sizes: steps.iter().map(|&s| fu(s)).collect(),
+            fri_step_sizes: steps.to_vec(),
             log_last_layer_degree_bound: last,
         },
         proof_of_work: swiftness_pow::config::Config { n_bits: pow },
@@ -236,6 +246,17 @@ pub fn redeclarations(b: &Base) -> Vec<(String, Value)> {
     for (tag, v) in [("0", 0u64), ("15", 15), ("16", 16)] {
         let sum: u64 = steps.iter().sum();
         add(format!("last_layer={}", tag), make(fu(sum + v), lc, &steps, fu(v), nq, pow, nf, b.cols, None));
+    }
+    // one FRI step re-declared with EVERY dependent number following (inner heights, FRI input size,
+    // trace exponent, table heights): consistent over the integers, only the step range is violated
+    let fsteps: Vec<Felt> = c.fri.fri_step_sizes.clone();
+    for i in 1..fsteps.len() {
+        for (tag, v) in [("0", Felt::ZERO), ("5", fu(5)), ("+2^64", fsteps[i] + b2f(&pow2(64))), ("+2^128", fsteps[i] + b2f(&pow2(128))), ("+2^250", fsteps[i] + b2f(&pow2(250))), ("p-1", p_minus(1))] {
+            let mut st = fsteps.clone();
+            st[i] = v;
+            let sum: Felt = st.iter().fold(Felt::ZERO, |a, b| a + *b);
+            add(format!("fri_step[{}]={}-all-following", i, tag), make_felt(sum + last, lc, &st, last, nq, pow, nf, b.cols, None));
+        }
     }
     // query count / pow at the bounds
     for (tag, v) in [("0", Felt::ZERO), ("1", Felt::ONE), ("48", fu(48)), ("49", fu(49)), ("2^40", fu(1 << 40)), ("p-1", p_minus(1))] {
